@@ -4,10 +4,12 @@
 TIER=$1; SEED=$2; shift 2
 IDS=${@:-$(cat /verif/tools/claimed.txt 2>/dev/null || cat tools/claimed.txt)}
 cd "$(dirname "$0")/.."
+L=$(mktemp -d /tmp/verif_sweep.XXXXXX)
 for p in $IDS; do
   t0=$(date +%s)
-  VERIF_SEED=$SEED VERIF_NO_EVIDENCE=1 ./check $p --tier $TIER > .work/sweep_${TIER}_${SEED}_$p.log 2>&1; rc=$?
-  echo "SWEEP $p tier=$TIER seed=$SEED rc=$rc violations=$(grep -c '^VIOLATION' .work/sweep_${TIER}_${SEED}_$p.log) known=$(grep -c '^KNOWN-FINDING' .work/sweep_${TIER}_${SEED}_$p.log) drift=$(grep -c 'MODEL-DRIFT' .work/sweep_${TIER}_${SEED}_$p.log) wall=$(( $(date +%s) - t0 ))s"
-  [ $rc -ne 0 ] && grep "^VIOLATION\|^  what\|^INCONCLUSIVE" .work/sweep_${TIER}_${SEED}_$p.log | head -6 | cut -c1-400
+  VERIF_SEED=$SEED VERIF_NO_EVIDENCE=1 ./check $p --tier $TIER > $L/$p.log 2>&1; rc=$?
+  echo "SWEEP $p tier=$TIER seed=$SEED rc=$rc violations=$(grep -c '^VIOLATION' $L/$p.log) known=$(grep -c '^KNOWN-FINDING' $L/$p.log) drift=$(grep -c 'MODEL-DRIFT' $L/$p.log) wall=$(( $(date +%s) - t0 ))s"
+  [ $rc -ne 0 ] && grep "^VIOLATION\|^  what\|^INCONCLUSIVE" $L/$p.log | head -6 | cut -c1-400
 done
+rm -rf $L
 echo SWEEPDONE
